@@ -6,6 +6,7 @@ import (
 	"bytes"
 	"encoding/hex"
 	"encoding/json"
+	"errors"
 	"fmt"
 	"math/big"
 	"math/rand"
@@ -582,6 +583,31 @@ type baseExtra struct {
 	dvShares [][]tbls.PrivateKey
 }
 
+// roundTripError: a lock whose hashes verify as an object no longer verifies once encoded and decoded.
+type roundTripError struct {
+	version, consensus string
+	err                error
+}
+
+func (e *roundTripError) Error() string {
+	return fmt.Sprintf("lock %s (consensus_protocol %q) verifies as built but not after encode+decode: %v", e.version, e.consensus, e.err)
+}
+
+// baseBuildFailed reports why no base could be built: a round-trip failure of the code under test is
+// a violation, anything else leaves the case inconclusive.
+func baseBuildFailed(r *kit.Run, where, version string, err error) {
+	var rt *roundTripError
+	if errors.As(err, &rt) {
+		cls := "lower-case-or-empty-protocol-name"
+		if rt.consensus != strings.ToLower(rt.consensus) {
+			cls = "protocol-name-with-upper-case-letters"
+		}
+		r.Violation(-1, "cluster/encode-decode-changes-hashes/lock/"+version+"/"+cls, rt.Error(), map[string]any{"where": where, "version": version, "consensus_protocol": rt.consensus, "error": rt.err.Error()})
+		return
+	}
+	r.Inconclusive("%s %s: cannot build valid base: %v", where, version, err)
+}
+
 // buildBaseShape is buildBase with an optional forced (threshold, nodes) shape.
 func buildBaseShape(t *testing.T, rng *rand.Rand, version string, shape *[2]int, extra *baseExtra) (lockJSON, defJSON []byte, meta baseMeta, eth1 eth1wrap.EthClientRunner, err error) {
 	eth1 = noEth1
@@ -760,6 +786,14 @@ func buildBaseShape(t *testing.T, rng *rand.Rand, version string, shape *[2]int,
 	if err := json.Unmarshal(lockJSON, &back); err != nil {
 		return nil, nil, meta, eth1, fmt.Errorf("decode own lock: %w", err)
 	}
+	// The lock was assembled and hashed through the cluster API; the document is its encoding. If
+	// the object's hashes are consistent and those of its decoded encoding are not, encoding followed
+	// by decoding has changed hashed content (the property's round-trip clause), whatever was generated.
+	if lock.VerifyHashes() == nil {
+		if verr := back.VerifyHashes(); verr != nil {
+			return nil, nil, meta, eth1, &roundTripError{version: version, consensus: meta.Consensus, err: verr}
+		}
+	}
 	defJSON, err = json.Marshal(back.Definition)
 	if err != nil {
 		return nil, nil, meta, eth1, err
@@ -924,7 +958,7 @@ func runTamperShard(c *kit.Case, unit int, version, kind string, shard, shards i
 	r := c.R
 	e := baseFor(r, unit, version)
 	if e.err != nil {
-		r.Inconclusive("W2 %s: cannot build valid base: %v", version, e.err)
+		baseBuildFailed(r, "W2", version, e.err)
 		return
 	}
 	meta := e.meta
